@@ -16,7 +16,8 @@ import json
 import re
 
 import lib
-from lib import cbool, chex, clist
+from c31_lits import balanced, cbp
+from lib import cbool, clist
 
 PROP = 'C30'
 IMPORTS = 'From PV Require Import Codec.Diff.'
@@ -205,7 +206,7 @@ def coq_script(hunks, tail):
 
 
 def cb(s: str) -> str:
-    return chex(s.encode('ascii'))
+    return cbp(s.encode('ascii'))
 
 
 def ascii_lf_only(*texts):
@@ -218,6 +219,17 @@ def run_apply(src, patch, rv):
     if ok and isinstance(val, str):
         return val
     return None
+
+
+# files removed / added / unchanged / emptied between the two protocols
+PROTO_FIXED = [
+    ([('alpha.mli', 'a\n'), ('alpha.ml', 'b\n'), ('beta.ml', 'c\n')], [('alpha.mli', 'a\n'), ('alpha.ml', 'B\n')], 3),
+    ([('alpha.ml', 'b\n'), ('beta.ml', 'c\n')], [('beta.ml', 'c\n')], 0),
+    ([('alpha.ml', 'b\n')], [('alpha.ml', 'b\n'), ('beta.mli', 'new\nfile'), ('beta.ml', '')], 1),
+    ([('alpha.ml', 'b\nc')], [('alpha.ml', '')], 0),
+    ([], [('alpha.ml', 'x\n')], 2),
+    ([('alpha.ml', 'x\n')], [], 2),
+]
 
 
 def malform(rng, patch):
@@ -273,8 +285,8 @@ def run(ctx: lib.Ctx) -> None:
             reported += 1
             ctx.violation(what, rep, found=found)
 
-    apply_cases, apply_meta = [], []
-    script_cases, script_meta = [], []
+    allcases = []  # (cost, (literal, stream, meta))
+    apply_meta = []
 
     def add_apply(src, patch, rv, kind):
         if not ascii_lf_only(src, patch):
@@ -283,8 +295,9 @@ def run(ctx: lib.Ctx) -> None:
         out = 'Reject' if got is None else f'(Ok {cb(got)})' if ascii_lf_only(got) else None
         if out is None:
             return got
-        apply_cases.append((f'({cb(src)}, {cb(patch)}, {cbool(rv)})', out))
-        apply_meta.append((src, patch, rv, got, kind))
+        meta = (src, patch, rv, got, kind)
+        allcases.append((len(src) + 2 * len(patch) + 40, (f'(DApply {cb(src)} {cb(patch)} {cbool(rv)} {out})', 'apply', meta)))
+        apply_meta.append(meta)
         return got
 
     # ---- corpus first
@@ -296,9 +309,11 @@ def run(ctx: lib.Ctx) -> None:
         add_apply(doc['source'], doc['patch'], bool(doc.get('revert')), 'corpus')
 
     # ---- 1. difflib patches
-    npairs = ctx.n(260, 4000)
+    npairs = ctx.n(200, 4000)
     fixed = [('', ''), ('', 'a\n'), ('a\n', ''), ('a', ''), ('', 'a'), ('a', 'a\n'), ('a\n', 'a'), ('a\nb', 'a\nb\nc'), ('a\nb\nc', 'a\nb'),
              ('\n', ''), ('\n\n', '\n'), ('a\n\n', 'a\n'), ('@\n', '@@\n'), ('\\ No newline at end of file\n', '\\ No newline at end of file'),
+             ('x\ny', 'x\nz\n'), ('x\ny', 'x\nz'), ('y', 'z'), ('y', 'z\n'), ('y\n', 'z'), ('p\nq\ny', 'p\nQ\nz'),
+             ('a\nb\n', 'a\nX\nb\n'), ('a\nX\nb\n', 'a\nb\n'), ('a\nb\n', 'X\na\nb\n'), ('a\nb\n', 'a\nb\nX\n'), ('a\nb', 'a\nb\nX'), ('X\n', ''),
              ('--- f\n', '+++ f\n'), ('-- f\n+\n', '-\n++ f\n'), ('x\n' * 12, 'x\n' * 5 + 'y\n' + 'x\n' * 7), ('a\nb\nc\nd\ne\nf\ng\nh\ni\nj\nk\nl\n', 'a\nB\nc\nd\ne\nf\ng\nh\ni\nj\nK\nl')]
     for k in range(npairs):
         a, b = fixed[k] if k < len(fixed) else gen_pair(rng)
@@ -321,15 +336,13 @@ def run(ctx: lib.Ctx) -> None:
             # script validity of difflib's output
             if ascii_lf_only(a, b, patch):
                 ps = parse_patch(a, patch)
-                if ps is None:
-                    script_cases.append((f'({cb(a)}, {cb(b)}, {cb(patch)}, nil, (mks nil nil))', 'true'))
-                else:
-                    hdr, hunks, tail = ps
-                    script_cases.append((f'({cb(a)}, {cb(b)}, {cb(patch)}, {clist(cb(h) for h in hdr)}, {coq_script(hunks, tail)})', 'true'))
-                script_meta.append((a, b, patch, 'difflib', cs))
+                hdr, hunks, tail = ps if ps is not None else ([], [], [])
+                allcases.append((2 * (len(a) + len(b) + 2 * len(patch)) + 40,
+                                 (f'(DScript {cb(a)} {cb(b)} {cb(patch)} {clist(cb(h) for h in hdr)} {coq_script(hunks, tail)})', 'script', (a, b, patch, 'difflib', cs))))
 
     # ---- 2. hand-built scripts
-    nscripts = ctx.n(200, 3000)
+    script_fail = []
+    nscripts = ctx.n(150, 3000)
     made = 0
     tries = 0
     while made < nscripts and tries < nscripts * 6:
@@ -346,16 +359,18 @@ def run(ctx: lib.Ctx) -> None:
         back = add_apply(b, patch, True, 'script')
         ctx.case(('s', a, b, patch), nontrivial=bool(hunks) and a != b, kind=f'script:{min(len(hunks), 3)}hunks',
                  sample={'a': a, 'b': b, 'patch': patch} if made == 3 else None)
-        script_cases.append((f'({cb(a)}, {cb(b)}, {cb(patch)}, {clist(cb(h) for h in hdr)}, {coq_script(hunks, tail)})', 'true'))
-        script_meta.append((a, b, patch, 'script', None))
+        allcases.append((2 * (len(a) + len(b) + 2 * len(patch)) + 40,
+                         (f'(DScript {cb(a)} {cb(b)} {cb(patch)} {clist(cb(h) for h in hdr)} {coq_script(hunks, tail)})', 'script', (a, b, patch, 'script', None))))
         if fwd != b or back != a:
-            report('applying / reverting a valid edit script does not reproduce the other text',
-                   {'a': a, 'b': b, 'patch': patch, 'applied': fwd, 'reverted': back,
-                    'repro': f'from pytezos.protocol.diff import apply_patch; apply_patch({a!r}, {patch!r}), apply_patch({b!r}, {patch!r}, revert=True)'})
+            # a valid script that make_patch did not produce: theorem C30_apply/C30_revert no longer describes the code,
+            # but the property text quantifies over *generated* diffs -> reported without a failing input of the property
+            script_fail.append({'correspondence': 'C30/apply_patch on a hand-built valid edit script (theorems C30_apply / C30_revert)',
+                                'a': a, 'b': b, 'patch': patch, 'applied': fwd, 'reverted': back,
+                                'repro': f'from pytezos.protocol.diff import apply_patch; apply_patch({a!r}, {patch!r}), apply_patch({b!r}, {patch!r}, revert=True)'})
 
     # ---- 3. malformed stream (A only)
     base = [m for m in apply_meta if m[4] in ('difflib', 'script') and m[1]]
-    for _ in range(ctx.n(250, 4000)):
+    for _ in range(ctx.n(220, 4000)):
         src, patch, rv, _, _ = rng.choice(base)
         bad = malform(rng, patch)
         if rng.random() < 0.2:
@@ -363,13 +378,7 @@ def run(ctx: lib.Ctx) -> None:
         got = add_apply(src, bad, rv, 'malformed')
         ctx.case(('m', src, bad, rv), nontrivial=True, kind=f'malformed:{"reject" if got is None else "accepted"}')
 
-    bad_a = ctx.coq_mismatches('apply', IMPORTS, 'apply_case', 'rbytes_eqb', 'bytes * bytes * bool', 'result bytes', apply_cases, shard=ctx.n(120, 300))
-    bad_s = ctx.coq_mismatches('script', IMPORTS, 'check_script', 'Bool.eqb', 'bytes * bytes * bytes * list bytes * script', 'bool', script_cases, shard=ctx.n(100, 300))
-    ctx.extra['apply_cases'] = len(apply_cases)
-    ctx.extra['script_cases'] = len(script_cases)
-
     # ---- 4. Protocol.diff / Protocol.patch
-    proto_cases, proto_meta = [], []
     for k in range(ctx.n(40, 400)):
         names = rng.sample(['alpha', 'beta', 'gamma_x', 'delta', 'eps'], rng.choice([1, 2, 3, 4]))
         yf, tf = [], []
@@ -385,6 +394,8 @@ def run(ctx: lib.Ctx) -> None:
                     if side > 0.15:
                         tf.append((f'{nm}.{ext}', b))
         cs = rng.randrange(6)
+        if k < len(PROTO_FIXED):
+            yf, tf, cs = PROTO_FIXED[k]
         yours = Protocol(files_to_proto(yf))
         theirs_proto = files_to_proto(tf)
         # Protocol.diff / patch call their argument: it is an RPC-query-like callable returning the protocol dict
@@ -407,24 +418,29 @@ def run(ctx: lib.Ctx) -> None:
         if dfiles is not None and all(ascii_lf_only(t) for _, t in dfiles + list(yours)):
             fl = lambda fs: clist(f'({cb(n)}, {cb(t)})' for n, t in fs)  # noqa: E731
             out = 'Reject' if res is None else f'(Ok {fl(res)})'
-            proto_cases.append((f'({fl(list(yours))}, {fl(dfiles)})', out))
-            proto_meta.append((yf, tf, cs, res))
-    bad_p = ctx.coq_mismatches('proto', IMPORTS, 'patch_case', 'files_eqb', 'list (bytes * bytes) * list (bytes * bytes)',
-                               'result (list (bytes * bytes))', proto_cases, shard=ctx.n(20, 100))
+            allcases.append((3 * sum(len(t) for _, t in dfiles + list(yours)) + 60,
+                             (f'(DProto {fl(list(yours))} {fl(dfiles)} {out})', 'proto', (yf, tf, cs, res))))
+    # ---- (A): the model evaluates every collected case inside coqc
+    shard = ctx.n(90, 250)
+    ordered = balanced(allcases, shard)
+    bad = ctx.coq_mismatches('cases', IMPORTS, 'dcheck', 'Bool.eqb', 'dcase', 'bool', [(lit, 'true') for lit, _, _ in ordered], shard=shard)
+    ctx.extra['coq_cases'] = {k: sum(1 for _, s_, _ in ordered if s_ == k) for k in ('apply', 'script', 'proto')}
+    bad_by = {k: [ordered[i][2] for i in bad if ordered[i][1] == k] for k in ('apply', 'script', 'proto')}
 
     # ---- verdicts for (A)
-    if bad_s and reported == 0:
-        a, b, patch, kind, cs = script_meta[bad_s[0]]
+    if script_fail and reported == 0:
+        report('apply_patch fails on a valid edit script that make_patch does not produce', script_fail[0], found=False)
+    if bad_by['script'] and reported == 0:
+        a, b, patch, kind, cs = bad_by['script'][0]
         report('a generated patch is not the text of a valid edit script between the two texts (theorems C30_apply/C30_revert do not cover it)',
                {'correspondence': 'C30/make_patch (difflib.unified_diff) vs Codec.Diff.render/valid_script', 'a': a, 'b': b, 'patch': patch,
-                'origin': kind, 'context_size': cs, 'disagreements': len(bad_s)}, found=False)
-    if bad_a and reported == 0:
-        src, patch, rv, got, kind = apply_meta[bad_a[0]]
-        # search: does the property itself fail near this input?
+                'origin': kind, 'context_size': cs, 'disagreements': len(bad_by['script'])}, found=False)
+    if bad_by['apply'] and reported == 0:
+        src, patch, rv, got, kind = bad_by['apply'][0]
         report('implementation no longer corresponds to the model the theorems are about',
                {'correspondence': 'C30/apply_patch vs Codec.Diff.apply_patch', 'source': src, 'patch': patch, 'revert': rv, 'got': got, 'stream': kind,
-                'model': ctx.coq_eval(IMPORTS, f'apply_patch {cb(src)} {cb(patch)} {cbool(rv)}'), 'disagreements': len(bad_a)}, found=False)
-    if bad_p and reported == 0:
-        yf, tf, cs, res = proto_meta[bad_p[0]]
+                'model': ctx.coq_eval(IMPORTS, f'apply_patch {cb(src)} {cb(patch)} {cbool(rv)}'), 'disagreements': len(bad_by['apply'])}, found=False)
+    if bad_by['proto'] and reported == 0:
+        yf, tf, cs, res = bad_by['proto'][0]
         report('implementation no longer corresponds to the model the theorems are about',
                {'correspondence': 'C30/Protocol.patch vs Codec.Diff.patch_files', 'yours': yf, 'theirs': tf, 'context_size': cs, 'got': res}, found=False)
